@@ -27,6 +27,7 @@ ASSUMPTIONS = [
     'the empty default is taken from Game.make_empty_game() at run time and additionally required to be all-zero gfx/gff/map, note-free sfx and silent music channels',
 ]
 EXHAUSTIVE = {'quick': False, 'thorough': True}
+PYOPT_KINDS = ('random',)
 SECTIONS = ('lua', 'gfx', 'gff', 'map', 'sfx', 'music')
 CHOICES = ('none', 'p8', 'png', 'empty')
 OUT_STATES = ('absent', 'p8', 'p8label', 'png')
